@@ -36,10 +36,10 @@ def _name_of(e):
 
 
 class Scanner(ast.NodeVisitor):
-    def __init__(self, func, hints, src_lines):
+    def __init__(self, func, hints, src_lines, set_params=()):
         self.func = func
         self.h = hints
-        self.types = {}
+        self.types = {p: "set" for p in set_params}     # parameters that receive a set-typed argument at some call site in the module
         self.sites = []
         self.src = src_lines
         self.parents = {}
@@ -226,14 +226,40 @@ def scan_module(path, hints, only_functions=None):
     lines = src.splitlines()
     out = {}
 
-    def visit(body, prefix):
+    funcs = {}
+
+    def collect(body, prefix):
         for n in body:
             if isinstance(n, ast.FunctionDef):
-                q = prefix + n.name
-                if only_functions is None or q in only_functions:
-                    out[q] = Scanner(n, hints, lines).scan()
-                visit(n.body, q + ".")
+                funcs[prefix + n.name] = n
+                collect(n.body, prefix + n.name + ".")
             elif isinstance(n, ast.ClassDef):
-                visit(n.body, prefix + n.name + ".")
-    visit(tree.body, "")
+                collect(n.body, prefix + n.name + ".")
+    collect(tree.body, "")
+    # set-typedness flows into same-module callees through arguments (two rounds: helper of a helper)
+    set_params = {q: set() for q in funcs}
+    by_short = {}
+    for q in funcs:
+        by_short.setdefault(q.split(".")[-1], []).append(q)
+    for _ in range(2):
+        for q, fn in funcs.items():
+            sc = Scanner(fn, hints, lines, set_params[q])
+            for c in ast.walk(fn):
+                if not isinstance(c, ast.Call):
+                    continue
+                callee = _name_of(c.func)
+                for tq in by_short.get(callee, []):
+                    tf = funcs[tq]
+                    names = [a.arg for a in tf.args.posonlyargs + tf.args.args]
+                    if names and names[0] in ("self", "cls") and isinstance(c.func, ast.Attribute):
+                        names = names[1:]
+                    for i, a in enumerate(c.args):
+                        if i < len(names) and sc.is_set(a):
+                            set_params[tq].add(names[i])
+                    for kw in c.keywords:
+                        if kw.arg in names and sc.is_set(kw.value):
+                            set_params[tq].add(kw.arg)
+    for q, fn in funcs.items():
+        if only_functions is None or q in only_functions:
+            out[q] = Scanner(fn, hints, lines, set_params[q]).scan()
     return out
